@@ -8,6 +8,7 @@ import (
 	"fmt"
 	"strings"
 	"sync"
+	"sync/atomic"
 	"time"
 
 	"verifharness/lib/dbh"
@@ -76,6 +77,7 @@ func main() {
 	}
 	jobs := make(chan job)
 	var wg sync.WaitGroup
+	var nShrunk int32 // failing runs taken up for shrinking and reporting (at most 6)
 	for wk := 0; wk < 16; wk++ {
 		wg.Add(1)
 		go func() {
@@ -119,7 +121,7 @@ func main() {
 				if d != "" {
 					res.Count("runs_failed", 1)
 				}
-				if d != "" && res.NViolations() < 6 {
+				if d != "" && atomic.AddInt32(&nShrunk, 1) <= 6 {
 					q, d2 := dbh.ShrinkPick(p, plainHooks, checkWf, 20*time.Second)
 					if d2 != "" {
 						res.Violate(d2, q)
